@@ -290,18 +290,24 @@ pub open spec fn sup_keys(v: Option<Vec<AccountInfo<'_>>>) -> Option<Seq<Pubkey>
 pub mod transfer_memo { pub const TRANSFER_MEMO_SWAP: &'static str = "Orca Trade"; }
 #[verifier::external_body]
 pub fn memo_bytes(s: &'static str) -> (r: &'static [u8]) { s.as_bytes() }
+/// C16 / C15: a token-extension transfer is made WITH the mint account, the token program and the transfer-hook accounts of the token side it moves
+pub uninterp spec fn moved_with(from: Pubkey, to: Pubkey, mint: Pubkey, program: Pubkey, hooks: int) -> bool;
+pub uninterp spec fn hook_tag<'info>(h: Option<Vec<AccountInfo<'info>>>) -> int;
 #[verifier::external_body]
 pub fn transfer_from_owner_to_vault_v2<'info>(authority: &Signer<'info>, token_mint: &InterfaceAccount<'info, Mint>, token_owner_account: &InterfaceAccount<'info, TokenAccount>, token_vault: &InterfaceAccount<'info, TokenAccount>,
     token_program: &Interface<'info, TokenInterface>, memo_program: &Program<'info, Memo>, transfer_hook_accounts: &Option<Vec<AccountInfo<'info>>>, amount: u64) -> (r: Result<()>)
-    ensures r is Ok ==> moved(*token_owner_account.info.key, *token_vault.info.key, amount) { unimplemented!() }
+    ensures r is Ok ==> moved(*token_owner_account.info.key, *token_vault.info.key, amount)
+        && moved_with(*token_owner_account.info.key, *token_vault.info.key, *token_mint.info.key, token_program.k, hook_tag(*transfer_hook_accounts)) { unimplemented!() }
 #[verifier::external_body]
 pub fn transfer_from_vault_to_owner_v2<'info>(whirlpool: &Account<'info, Whirlpool>, token_mint: &InterfaceAccount<'info, Mint>, token_vault: &InterfaceAccount<'info, TokenAccount>, token_owner_account: &InterfaceAccount<'info, TokenAccount>,
     token_program: &Interface<'info, TokenInterface>, memo_program: &Program<'info, Memo>, transfer_hook_accounts: &Option<Vec<AccountInfo<'info>>>, amount: u64, memo: &[u8]) -> (r: Result<()>)
-    ensures r is Ok ==> moved(*token_vault.info.key, *token_owner_account.info.key, amount) { unimplemented!() }
+    ensures r is Ok ==> moved(*token_vault.info.key, *token_owner_account.info.key, amount)
+        && moved_with(*token_vault.info.key, *token_owner_account.info.key, *token_mint.info.key, token_program.k, hook_tag(*transfer_hook_accounts)) { unimplemented!() }
 
 //@ fn util/v2/swap_utils.rs perform_swap_v2 -> r tags=C06,C03,C17,C16 canary
     ensures r is Ok ==> (if a_to_b { moved(*token_owner_account_a.info.key, *token_vault_a.info.key, amount_a) && moved(*token_vault_b.info.key, *token_owner_account_b.info.key, amount_b) }
                           else { moved(*token_owner_account_b.info.key, *token_vault_b.info.key, amount_b) && moved(*token_vault_a.info.key, *token_owner_account_a.info.key, amount_a) }),
+        r is Ok ==> (if a_to_b { moved_with(*token_owner_account_a.info.key, *token_vault_a.info.key, *token_mint_a.info.key, token_program_a.k, hook_tag(*transfer_hook_accounts_a)) && moved_with(*token_vault_b.info.key, *token_owner_account_b.info.key, *token_mint_b.info.key, token_program_b.k, hook_tag(*transfer_hook_accounts_b)) } else { moved_with(*token_owner_account_b.info.key, *token_vault_b.info.key, *token_mint_b.info.key, token_program_b.k, hook_tag(*transfer_hook_accounts_b)) && moved_with(*token_vault_a.info.key, *token_owner_account_a.info.key, *token_mint_a.info.key, token_program_a.k, hook_tag(*transfer_hook_accounts_a)) }), //# C16 C15
 //@ end
 //@ fn util/v2/swap_utils.rs update_and_swap_whirlpool_v2 -> r tags=C06,C03,C17,C16 canary
     requires fee_fits(old(whirlpool).data, *swap_update, is_token_fee_in_a),
@@ -309,6 +315,7 @@ pub fn transfer_from_vault_to_owner_v2<'info>(whirlpool: &Account<'info, Whirlpo
         final(whirlpool).data == pool_after(old(whirlpool).data, *swap_update, is_token_fee_in_a, reward_last_updated_timestamp),
         r is Ok ==> (if is_token_fee_in_a { moved(*token_owner_account_a.info.key, *token_vault_a.info.key, swap_update.amount_a) && moved(*token_vault_b.info.key, *token_owner_account_b.info.key, swap_update.amount_b) }
                           else { moved(*token_owner_account_b.info.key, *token_vault_b.info.key, swap_update.amount_b) && moved(*token_vault_a.info.key, *token_owner_account_a.info.key, swap_update.amount_a) }),
+        r is Ok ==> (if is_token_fee_in_a { moved_with(*token_owner_account_a.info.key, *token_vault_a.info.key, *token_mint_a.info.key, token_program_a.k, hook_tag(*transfer_hook_accounts_a)) && moved_with(*token_vault_b.info.key, *token_owner_account_b.info.key, *token_mint_b.info.key, token_program_b.k, hook_tag(*transfer_hook_accounts_b)) } else { moved_with(*token_owner_account_b.info.key, *token_vault_b.info.key, *token_mint_b.info.key, token_program_b.k, hook_tag(*transfer_hook_accounts_b)) && moved_with(*token_vault_a.info.key, *token_owner_account_a.info.key, *token_mint_a.info.key, token_program_a.k, hook_tag(*transfer_hook_accounts_a)) }), //# C16 C15
 //@ end
 /// two-hop: the input goes from the trader to pool one, leg one's output goes from pool one's vault straight into pool two's vault, the final output to the trader
 //@ fn util/v2/swap_utils.rs update_and_two_hop_swap_whirlpool_v2 -> r tags=C17,C06,C16 canary
@@ -319,6 +326,9 @@ pub fn transfer_from_vault_to_owner_v2<'info>(whirlpool: &Account<'info, Whirlpo
         r is Ok ==> moved(*token_owner_account_input.info.key, *token_vault_one_input.info.key, in_of(*swap_update_one, is_token_fee_in_one_a))
             && moved(*token_vault_one_intermediate.info.key, *token_vault_two_intermediate.info.key, out_of(*swap_update_one, is_token_fee_in_one_a))
             && moved(*token_vault_two_output.info.key, *token_owner_account_output.info.key, out_of(*swap_update_two, is_token_fee_in_two_a)),
+        r is Ok ==> moved_with(*token_owner_account_input.info.key, *token_vault_one_input.info.key, *token_mint_input.info.key, token_program_input.k, hook_tag(*transfer_hook_accounts_input))
+            && moved_with(*token_vault_one_intermediate.info.key, *token_vault_two_intermediate.info.key, *token_mint_intermediate.info.key, token_program_intermediate.k, hook_tag(*transfer_hook_accounts_intermediate))
+            && moved_with(*token_vault_two_output.info.key, *token_owner_account_output.info.key, *token_mint_output.info.key, token_program_output.k, hook_tag(*transfer_hook_accounts_output)), //# C16 C15 C17
 //@ end
 
 //@ struct instructions/v2/swap.rs SwapV2
@@ -346,6 +356,13 @@ pub open spec fn swap_v2_legs(a0: SwapV2<'_>, a1: SwapV2<'_>, s: SwapTickSequenc
     &&& (!a_to_b ==> moved(*a0.token_owner_account_b.info.key, *a0.token_vault_b.info.key, u.amount_b) && moved(*a0.token_vault_a.info.key, *a0.token_owner_account_a.info.key, u.amount_a))
     &&& event_for(wk, w0, a_to_b, u, min, mout)
 }
+/// C16 / C15: each of the two transfers of swap_v2 is made with the mint account, token program and transfer-hook accounts of ITS token side
+pub open spec fn v2_transfers_wired(a0: SwapV2<'_>, pr: ParsedRemainingAccounts<'_>, a_to_b: bool) -> bool {
+    let oa = *a0.token_owner_account_a.info.key; let va = *a0.token_vault_a.info.key; let ob = *a0.token_owner_account_b.info.key; let vb = *a0.token_vault_b.info.key;
+    let ma = *a0.token_mint_a.info.key; let mb = *a0.token_mint_b.info.key;
+    if a_to_b { moved_with(oa, va, ma, a0.token_program_a.k, hook_tag(pr.transfer_hook_a)) && moved_with(vb, ob, mb, a0.token_program_b.k, hook_tag(pr.transfer_hook_b)) }
+    else { moved_with(ob, vb, mb, a0.token_program_b.k, hook_tag(pr.transfer_hook_b)) && moved_with(va, oa, ma, a0.token_program_a.k, hook_tag(pr.transfer_hook_a)) }
+}
 pub open spec fn swap_v2_post(a0: SwapV2<'_>, a1: SwapV2<'_>, rem: Seq<AccountInfo<'_>>, rinfo: Option<RemainingAccountsInfo>, amount: u64, thr: u64, limit: u128, is_in: bool, a_to_b: bool) -> bool {
     let w0 = a0.whirlpool.data; let wk = a0.whirlpool.k; let ts = now_unix() as u64;
     &&& now_unix() >= 0
@@ -354,6 +371,7 @@ pub open spec fn swap_v2_post(a0: SwapV2<'_>, a1: SwapV2<'_>, rem: Seq<AccountIn
     &&& built_seq(w0, wk, ta_keys3(*a0.tick_array_0.k, *a0.tick_array_1.k, *a0.tick_array_2.k), sup_keys(pr.supplemental_tick_arrays), a_to_b) matches Ok(s)
     &&& oracle_afi(wk, *a0.oracle.k) matches Ok(afi)
     &&& exists|u: PostSwapUpdate| #[trigger] swap_v2_legs(a0, a1, s, afi, amount, thr, limit, is_in, a_to_b, u)
+    &&& v2_transfers_wired(a0, pr, a_to_b)
 }
 //@ fn instructions/v2/swap.rs handler -> r as=swap_v2_handler tags=C03,C16,C17
     requires constraints_SwapV2(old(ctx.accounts)),
@@ -423,6 +441,12 @@ pub open spec fn two_hop_v2_legs(a0: TwoHopSwapV2<'_>, a1: TwoHopSwapV2<'_>, s1:
     &&& moved(*a0.token_vault_two_output.info.key, *a0.token_owner_account_output.info.key, out_of(u2, a_to_b_two))
     &&& event_for(k1, w1, a_to_b_one, u1, m_in, m_mid) && event_for(k2, w2, a_to_b_two, u2, m_mid, m_out)
 }
+/// C16 / C15 / C17: the three transfers of two_hop_swap_v2 use the mint account, token program and transfer-hook accounts of the input, intermediate and output token
+pub open spec fn two_hop_transfers_wired(a0: TwoHopSwapV2<'_>, pr: ParsedRemainingAccounts<'_>) -> bool {
+    moved_with(*a0.token_owner_account_input.info.key, *a0.token_vault_one_input.info.key, *a0.token_mint_input.info.key, a0.token_program_input.k, hook_tag(pr.transfer_hook_input))
+    && moved_with(*a0.token_vault_one_intermediate.info.key, *a0.token_vault_two_intermediate.info.key, *a0.token_mint_intermediate.info.key, a0.token_program_intermediate.k, hook_tag(pr.transfer_hook_intermediate))
+    && moved_with(*a0.token_vault_two_output.info.key, *a0.token_owner_account_output.info.key, *a0.token_mint_output.info.key, a0.token_program_output.k, hook_tag(pr.transfer_hook_output))
+}
 pub open spec fn two_hop_v2_post(a0: TwoHopSwapV2<'_>, a1: TwoHopSwapV2<'_>, rem: Seq<AccountInfo<'_>>, rinfo: Option<RemainingAccountsInfo>, amount: u64, thr: u64, is_in: bool, a_to_b_one: bool, a_to_b_two: bool, limit_one: u128, limit_two: u128) -> bool {
     let w1 = a0.whirlpool_one.data; let k1 = a0.whirlpool_one.k; let w2 = a0.whirlpool_two.data; let k2 = a0.whirlpool_two.k; let ts = now_unix() as u64;
     &&& now_unix() >= 0
@@ -435,6 +459,7 @@ pub open spec fn two_hop_v2_post(a0: TwoHopSwapV2<'_>, a1: TwoHopSwapV2<'_>, rem
     &&& oracle_afi(k1, *a0.oracle_one.k) matches Ok(afi1)
     &&& oracle_afi(k2, *a0.oracle_two.k) matches Ok(afi2)
     &&& exists|u1: PostSwapUpdate, u2: PostSwapUpdate| #[trigger] two_hop_v2_legs(a0, a1, s1, s2, afi1, afi2, amount, thr, is_in, a_to_b_one, a_to_b_two, limit_one, limit_two, u1, u2)
+    &&& two_hop_transfers_wired(a0, pr)
 }
 //@ fn instructions/v2/two_hop_swap.rs handler -> r as=two_hop_swap_v2_handler tags=C17,C03,C16
     requires constraints_TwoHopSwapV2(old(ctx.accounts), a_to_b_one, a_to_b_two),
